@@ -69,6 +69,9 @@ def sweep_scenarios(quick, seed):
     # readers parked between reserving and publishing their slot of the read buffer, across InvalidateAll and a maintenance run (C17)
     for k in range(4):
         out.append({"ttl": 0, "jump": 0, "later": 0, "op": "rb.clear", "sized": k % 2, "syncexec": 0, "warm": k // 2, "max": 0})
+    # an eviction run parked in a deletion handler while every other key is rewritten (C04)
+    for k, mx in enumerate((5, 0, 1, 12)):
+        out.append({"ttl": 0, "jump": 0, "later": 0, "op": "ev.rewrite", "sized": k % 2, "syncexec": 1, "warm": 0, "max": mx})
     # stale-node eviction while a load of the key is in flight (C08)
     for op in ("ld.staleevict.inv", "ld.staleevict.set"):
         out.append({"ttl": 0, "jump": 0, "later": 0, "op": op, "sized": 1, "syncexec": 0, "warm": 0, "max": 0})
@@ -101,7 +104,7 @@ def sweep_scenarios(quick, seed):
 
 
 def sc_is_foreign(sc):
-    return sc["op"].startswith(("ld.", "persist.", "rb."))
+    return sc["op"].startswith(("ld.", "persist.", "rb.", "ev."))
 
 
 def expire_race_cfg(readers, nreads, ttl, maxclock, nsweeps, sized, resurrect, writer="", reread=False):
@@ -173,6 +176,7 @@ def read_race_half(prop, tier, mc_out=None):
         scs = [sc for sc in sweep_scenarios(False, seed) if sc["op"].startswith("read.")]
         if tier == "quick":
             scs = [sc for sc in scs if sc["sized"] == 1]
+        scs += [sc for sc in sweep_scenarios(False, seed) if sc["op"] == "ev.rewrite"]
     with vlib.scratch("verif-rr-") as work:
         if prop == "C06":
             mc, mbroken = expire_race_models(work, tier)
@@ -343,7 +347,7 @@ def run(prop, tier, replay=None):
                     total = sc["jump"] + sc["later"]
                     r["mustsweep"] = 1 if (total - sc["ttl"] > TICK and sc["later"] > TICK) else 0
                     r["deadlinepassed"] = 1 if sc["ttl"] <= total else 0
-                    if sc["op"].startswith(("mass.", "ld.", "persist.", "rb.")):
+                    if sc["op"].startswith(("mass.", "ld.", "persist.", "rb.", "ev.")):
                         r["mustsweep"], r["deadlinepassed"] = 0, 1
                     if sc["op"].startswith("late."):
                         r["mustsweep"], r["deadlinepassed"] = 1, 1
